@@ -210,6 +210,7 @@ func runC10(c *Ctx, idx int) {
 	r := c.RNG(idx, 1)
 	prof := fullProfile()
 	prof.Skipped, prof.MediaInText, prof.AttrNoise = true, true, idx%3 == 0
+	prof.NonASCII = idx%2 == 0 // text that a normaliser would rewrite (decomposed accents, soft hyphens, compatibility letters)
 	g := NewArtGen(r, prof)
 	src := g.Doc()
 	if idx%4 == 0 {
